@@ -426,6 +426,11 @@ func (p *cparser) postfix() CExpr {
 }
 
 func (p *cparser) primary() CExpr {
+	// a type used as an argument (istype, unbox, slot, typetag ...): map[K]V or []T
+	if (p.isID("map") && p.toks[p.pos+1].kind == "op" && p.toks[p.pos+1].text == "[") ||
+		(p.isOp("[") && p.toks[p.pos+1].kind == "op" && p.toks[p.pos+1].text == "]") {
+		return &CIdent{p.typeExpr()}
+	}
 	t := p.next()
 	switch t.kind {
 	case "id":
